@@ -74,8 +74,10 @@ func parseClusterNodes(data string) (map[string]*instance, error) {
 		if inst.MasterID == "" {
 			continue
 		}
-		master := insts[inst.MasterID]
-		master.Replicas = append(master.Replicas, inst)
+		// NOTE: ignore the replica whose master is unknown or isn't a master.
+		if master, ok := insts[inst.MasterID]; ok && master.MasterID == "" {
+			master.Replicas = append(master.Replicas, inst)
+		}
 		delete(insts, id)
 	}
 	return insts, nil
